@@ -3,7 +3,21 @@
 schema("BaseControl", flumine=Ref("BaseFlumine"), NAME=ATOM)
 
 
-@contract("flumine/controls/__init__.py::BaseControl._on_error", tags=["C02", "C03"])
+# used at the call site in _on_error; PROVED in engine variant B (groups/B/contracts/c03_lifecycle.py, property C03), assumed in this variant
+@contract("flumine/order/order.py::BaseOrder.violation", tags=[])
+def _(self, violation_msg: ATOM):
+    trusted("proved under C03 in engine variant B (the order state machine lives there); used here as the callee contract of BaseControl._on_error")
+    modifies(self, "status")
+    modifies(self, "complete")
+    modifies(self, "date_time_status_update")
+    modifies(self, "violation_msg")
+    modifies_list(self.status_log)
+    modifies(self.update_data, "size_reduction")
+    modifies(self.update_data, "new_price")
+    ensures("violation", self.status == OrderStatus.VIOLATION and self.complete)
+
+
+@contract("flumine/controls/__init__.py::BaseControl._on_error", tags=["C01", "C17", "C18", "C02", "C03"])
 def _(self, order: Ref("BaseOrder"), error: ATOM):
     raises(ControlError, when=True, iff=True, label="always",
            modifies=[(order, "status"), (order, "complete"), (order, "violation_msg"), (order, "date_time_status_update"),
